@@ -130,6 +130,11 @@ def t_splib_family_and_grid():
         T = splib.rel_pose(h, i)
         assert T[1, 3] == 0.0 and np.hypot(T[0, 3], T[1, 3]) <= 0.2 * h + 1e-12
     assert splib.case_id("g", "I", "s0", 7, 1) == "g/I/s0/p007/m1"
+    for seed in range(8):
+        g = splib.seed_geo(seed)
+        assert g == splib.seed_geo(seed) == splib.geo("seedgeo%d" % seed) and g.gid not in {x.gid for x in F}
+        assert 0.2 <= g.r <= 2 and 0.3 <= g.ratio <= 1 and 5 <= g.bs <= 40 and 5 <= g.ts <= 40 and 0 <= g.thick <= 0.1
+        assert 0.8 <= g.lmin <= 1.5 and 1.5 <= g.stroke <= 2 and np.isfinite(splib.nominal(g)["h"])
     assert abs(splib.spin_angle("s-60d") + np.pi / 3) < 1e-15 and splib.spin_angle("s0.4") == 0.4 and splib.spin_angle("s0") == 0.0
     assert np.allclose(splib.base_T("I"), np.eye(4)) and se3.is_so3(splib.base_T("BS", 3)[:3, :3], 1e-12)
 
